@@ -13,13 +13,16 @@ for p in "$@"; do
   git -C "$wt" checkout -q -- . ; git -C "$wt" clean -fdq
   if ! git -C "$wt" apply "$(realpath $p)"; then echo "| $name | patch does not apply |" >> "$out"; continue; fi
   row="| $name"
+  pre="$VDIR/bin/matrix-$$"
+  if ! (cd "$VDIR" && ./run.sh --build-only "$pre" >/dev/null 2>&1); then echo "| $name | build failed |" >> "$out"; continue; fi
   for prop in C04 C07 C10 C11 C19; do
-    o=$(cd "$VDIR" && ./run.sh $prop quick 2>&1); rc=$?
+    o=$(cd "$VDIR" && VERIF_PREBUILT="$pre" ./run.sh $prop quick 2>&1); rc=$?
     kind=$(echo "$o" | grep -A1 "^VIOLATION" | sed -n 2p | awk '{print $1}')
     case $rc in 0) cell="-";; 1) cell="**$kind**";; *) cell="rc=$rc";; esac
     row="$row | $cell"
   done
   echo "$row |" >> "$out"
   echo "$row |"
+  rm -f "$pre" "$pre-race"
 done
 git -C /repo worktree remove --force "$wt"
